@@ -10,6 +10,9 @@ import sys
 
 REGISTRY = {
     "C01": ("checks.ledger_checks", "c01"),
+    "C02": ("checks.ledger_checks", "c02"),
+    "C03": ("checks.ledger_checks", "c03"),
+    "C09": ("checks.ledger_checks", "c09"),
 }
 
 
